@@ -8,7 +8,7 @@ nodes   comma-separated nodes, `-` = empty list
 pset    six tokens: `<sub> <prims> <terms> <ret> <terms_count> <prims_count>`
         sub   = `a.b,a.b,…` all pairs with issubclass(a, b)
         pools = `τ=nodes;τ=nodes;…` (`τ=` empty list), `-` = empty dict
-tape    comma-separated draws `r<bits>` | `i<a>.<b>.<x>` | `g<a>.<b>.<x>` | `c<n>.<i>` | `k<n>.<τ>`
+tape    comma-separated draws `r<bits>` | `i<a>.<b>.<x>` | `g<a>.<b>.<x>` | `c<n>.<i>`
 -/
 namespace DriverC11
 open Proto GpTree
@@ -80,9 +80,6 @@ def parseDraw (s : String) : Option Draw :=
     | _ => none
   | "c" => match body.splitOn "." with
     | [n, i] => do let n ← parseNat n; let i ← parseNat i; some (.choice n i)
-    | _ => none
-  | "k" => match body.splitOn "." with
-    | [n, t] => do let n ← parseNat n; let t ← parseNat t; some (.pick n t)
     | _ => none
   | _ => none
 
